@@ -131,7 +131,8 @@ func (s *SpyStore) SetTokenResponse(ctx context.Context, id string, t *oidc.Toke
 		s.done(seq, func(c *StoreCall) { c.Err = ErrInjected })
 		return ErrInjected
 	}
-	err := s.Inner.SetTokenResponse(ctx, id, t)
+	var err error
+	redisOutage(fault == "redis", func() { err = s.Inner.SetTokenResponse(ctx, id, t) })
 	if fault == "after" {
 		err = ErrInjected
 	}
@@ -145,7 +146,9 @@ func (s *SpyStore) GetTokenResponse(ctx context.Context, id string) (*oidc.Token
 		s.done(seq, func(c *StoreCall) { c.Err = ErrInjected })
 		return nil, ErrInjected
 	}
-	t, err := s.Inner.GetTokenResponse(ctx, id)
+	var t *oidc.TokenResponse
+	var err error
+	redisOutage(fault == "redis", func() { t, err = s.Inner.GetTokenResponse(ctx, id) })
 	if fault == "after" {
 		t, err = nil, ErrInjected
 	}
@@ -160,7 +163,8 @@ func (s *SpyStore) SetAuthorizationState(ctx context.Context, id string, a *oidc
 		s.done(seq, func(c *StoreCall) { c.Err = ErrInjected })
 		return ErrInjected
 	}
-	err := s.Inner.SetAuthorizationState(ctx, id, a)
+	var err error
+	redisOutage(fault == "redis", func() { err = s.Inner.SetAuthorizationState(ctx, id, a) })
 	if fault == "after" {
 		err = ErrInjected
 	}
@@ -174,7 +178,9 @@ func (s *SpyStore) GetAuthorizationState(ctx context.Context, id string) (*oidc.
 		s.done(seq, func(c *StoreCall) { c.Err = ErrInjected })
 		return nil, ErrInjected
 	}
-	a, err := s.Inner.GetAuthorizationState(ctx, id)
+	var a *oidc.AuthorizationState
+	var err error
+	redisOutage(fault == "redis", func() { a, err = s.Inner.GetAuthorizationState(ctx, id) })
 	if fault == "after" {
 		a, err = nil, ErrInjected
 	}
@@ -188,7 +194,8 @@ func (s *SpyStore) ClearAuthorizationState(ctx context.Context, id string) error
 		s.done(seq, func(c *StoreCall) { c.Err = ErrInjected })
 		return ErrInjected
 	}
-	err := s.Inner.ClearAuthorizationState(ctx, id)
+	var err error
+	redisOutage(fault == "redis", func() { err = s.Inner.ClearAuthorizationState(ctx, id) })
 	if fault == "after" {
 		err = ErrInjected
 	}
@@ -202,7 +209,8 @@ func (s *SpyStore) RemoveSession(ctx context.Context, id string) error {
 		s.done(seq, func(c *StoreCall) { c.Err = ErrInjected })
 		return ErrInjected
 	}
-	err := s.Inner.RemoveSession(ctx, id)
+	var err error
+	redisOutage(fault == "redis", func() { err = s.Inner.RemoveSession(ctx, id) })
 	if fault == "after" {
 		err = ErrInjected
 	}
@@ -218,6 +226,18 @@ func (s *SpyStore) RemoveAllExpired(ctx context.Context) error {
 	err := s.Inner.RemoveAllExpired(ctx)
 	s.done(seq, func(c *StoreCall) { c.Err = err })
 	return err
+}
+
+// redisOutage makes every Redis command fail for the duration of f (fault mode "redis").
+func redisOutage(active bool, f func()) {
+	if !active {
+		f()
+		return
+	}
+	mr, _ := Redis()
+	mr.SetError("ERR injected redis outage")
+	defer mr.SetError("")
+	f()
 }
 
 // FixedFactory hands the same store to every filter.
